@@ -93,7 +93,8 @@ def maildir_sim(base_dir: str, *, layout: str = '++', users: Any = None,
         # read-write locks and events)
         from .simloop import CountingExecutor
         sim.executor = CountingExecutor(4)
-        overrides['subsystem'] = Subsystem.for_threading(sim.executor)
+        overrides['subsystem'] = sim.executor.count_execute(
+            Subsystem.for_threading(sim.executor))
     overrides.setdefault('hash_context', HASH)
     overrides.setdefault('invalid_user_sleep', 0.0)
     overrides.setdefault('cpu_subsystem', Subsystem.for_asyncio())
